@@ -460,6 +460,7 @@ class Interp:
         self.procs = {}
         self.eff = []             # stack of [reads, writes] for unordered operand groups
         self.open_groups = 0      # unordered groups with >1 call-containing operand currently being evaluated
+        self.multi_call_groups = 0   # unordered groups with two or more call-containing operands that were evaluated
         self.out_dests = set()
         self.in_srcs = set()
         self.features = set()
@@ -597,6 +598,7 @@ class Interp:
         multi = ncall > 1
         if multi:
             self.open_groups += 1
+            self.multi_call_groups += 1
         vals = []
         sets = []
         try:
@@ -955,6 +957,7 @@ class Interp:
                 code = x.value
             return {"status": "defined", "exit": code, "events": self.events, "calls": self.calls,
                     "steps": self.steps, "maxdepth": self.maxdepth_seen, "consumed": self.conpos,
+                    "multi_call_groups": self.multi_call_groups,
                     "features": self.features}
         except IllDefined as e:
             return {"status": "ill-defined", "reason": e.reason, "steps": self.steps, "events": self.events,
